@@ -81,7 +81,7 @@ def resolveLinks (pkgs : List (String × PTree)) : Nat → PTree → Option PTre
 def checkUserInput : Nat → PTree → PTree → Except String Unit
   | 0, _, _ => .error "fuel"
   | fuel + 1, user, defaults =>
-    if user.hasAttr "unchecked" then .ok () else
+    if defaults.hasAttr "unchecked" then .ok () else
     user.children.foldl (fun (acc : Except String Unit) c => match acc with
       | .error e => .error e
       | .ok () => match getLast defaults.children c.name with
